@@ -16,7 +16,8 @@
 //  harness_void_*, harness_gen_ast  every traversal function on every node shape of error-free parses, children stubbed (layer B): C02
 //  h_gen_frame                the real Theo::gen() around an observing gen_ast(): C02
 //  h_shape_<k>                gen_ast() on small whole trees (layer C cross-check): C02
-// One part of the file is compiled per build (-DGR_PART=1..7: registers, call, program, labels, shapes, traversal functions, gen frame), each with its own capacities.
+//  h_assign / h_loop / h_while  lowering of assignment, LOOP, WHILE from an arbitrary generator state (part 8): C01, C03, C16
+// One part of the file is compiled per build (-DGR_PART=1..8: registers, call, program, labels, shapes, traversal functions, gen frame, lowering), each with its own capacities.
 // Written against the container model only (job option native=False).  Assertion texts contain no double quotes.
 #include "Compiler/src/gen.cpp"
 
@@ -1137,7 +1138,11 @@ static struct Ctx8 {
   int bpos, bend, blabels, btodo, blabels_end, btodo_end, bloops;            // body stub: where it ran, what it added
   bool g_in, g_temp, g_live, g_named, b_clash, b_tmp;                        // state of the guarded register (counter / condition) while the body runs
   FunctionGenState regs_end;                                                 // register file when the body returned
+  int nerr;                                                                  // diagnostics recorded (stub_err8)
 } X;
+// GenState::err() as seen from the code under test (job option stubs): the diagnostic is counted, its text and gs.errors are not
+// modelled (no obligation of this part reads them; building three texts per listed jump dominated the query of backpatch() otherwise)
+extern "C" void stub_err8(GenState *gs, ET t, std::string msg) { X.nerr++; }
 extern "C" void stub_value8(GenState &gs, Node *c, RegisterIndex tgt) {
   FunctionGenState &f = gs.getSymbols();
   if (X.vcalls == 0) {
@@ -1180,7 +1185,7 @@ extern "C" void stub_body8(GenState &gs, Node *c) {
   X.regs_end = f;
 }
 static void reset8() {
-  X.vcalls = X.bcalls = 0; X.vnode = X.bnode = NULL; X.vtgt = -1; X.vpos = X.vend = X.vlabels = X.vregs = -1; X.v_in = X.v_temp = X.v_live = false;
+  X.nerr = 0; X.vcalls = X.bcalls = 0; X.vnode = X.bnode = NULL; X.vtgt = -1; X.vpos = X.vend = X.vlabels = X.vregs = -1; X.v_in = X.v_temp = X.v_live = false;
   X.bpos = X.bend = X.blabels = X.btodo = X.blabels_end = X.btodo_end = X.bloops = -1; X.g_in = X.g_temp = X.g_live = X.g_named = X.b_clash = X.b_tmp = false;
 }
 // W = 0: LOOP bound DO body END through the real dispatchLoop;  W = 1: WHILE cond != 0 DO body END through the real dispatchWhile
